@@ -214,12 +214,29 @@ class C11(core.Check):
         wid = [0]
         neq = rnd.randint(1, 4)
         src = ''
+        redef = case['s'] % 6 == 1
+        if redef:
+            # relation macros re-defined by the user (a common preamble line) are still operators of the scheme
+            src = ('\\renewcommand{\\le}{\\leqslant}\n\\newcommand{\\to}{\\longrightarrow}\n'
+                   '\\renewcommand{\\subset}{\\varsubset}\n')
         eqs = []
         for k in range(neq):
             while True:
                 rows = gen_eq(rnd, wid, ams=case['pack'] == '*')
                 if all(row_renders(r) for r in rows):
                     break
+            if redef:
+                # (the new replacement text is an element: keep such an operator in front of an element)
+                for row in rows:
+                    for sec in row:
+                        for it in sec:
+                            if it[0] != 'math':
+                                continue
+                            atoms = it[1]
+                            for j, a in enumerate(atoms):
+                                if a[0] == 'op' and a[1] in ('\\le', '\\to', '\\subset') and \
+                                        not any(b[0] == 'el' for b in atoms[j + 1:]):
+                                    atoms[j] = ('op', '\\leq')
             env = rnd.choice(ENVS if case['pack'] == '*' else BUILTIN_ENVS)
             e = Eq()
             e.rows = rows
@@ -252,6 +269,8 @@ class C11(core.Check):
         else:
             (t, p), err = tex.run(src, lang=lang, pack=case['pack'], seqs=case['seqs'])
         cnt = {'equations': neq, 'seqs_docs' if case['seqs'] else 'full_docs': 1}
+        if redef:
+            cnt['docs_with_redefined_operators'] = 1
         if case.get('ml'):
             cnt['ml_docs'] = 1
         detail = dict(src=src, plain=t, stderr=err, lang=lang, seqs=case['seqs'])
@@ -338,7 +357,7 @@ class C11(core.Check):
 
     def quotas(self, tier):
         return {'ml_docs': 500, 'equations_judged': 5000, 'rows_judged': 10000, 'with_kept_punctuation': 2000,
-                'with_operator_word': 1500, 'simple_equations_judged': 1000}
+                'with_operator_word': 1500, 'simple_equations_judged': 1000, 'docs_with_redefined_operators': 500}
 
 
 CHECK = C11
